@@ -56,6 +56,18 @@ type Session struct {
 	*Server
 	Statements StatementCache
 	Portals    PortalCache
+	// discard is set once an extended query message has failed, all messages
+	// up to the next Sync are discarded.
+	discard bool
+}
+
+// extendedError reports the failure of an extended query message. The ready
+// for query message ending the cycle is only written once the client issues a
+// Sync, all messages received up to that point are discarded.
+// https://www.postgresql.org/docs/current/protocol-flow.html#PROTOCOL-FLOW-EXT-QUERY
+func (srv *Session) extendedError(writer *buffer.Writer, err error) error {
+	srv.discard = true
+	return errorResponse(writer, err)
 }
 
 // consumeCommands consumes incoming commands sent over the Postgres wire connection.
@@ -145,6 +157,16 @@ func handleMessageSizeExceeded(reader *buffer.Reader, writer *buffer.Writer, exc
 func (srv *Session) handleCommand(ctx context.Context, conn net.Conn, t types.ClientMessage, reader *buffer.Reader, writer *buffer.Writer) error {
 	ctx, cancel := context.WithCancel(ctx)
 	defer cancel()
+
+	if srv.discard {
+		switch t {
+		case types.ClientSync:
+			srv.discard = false
+		case types.ClientTerminate:
+		default:
+			return nil
+		}
+	}
 
 	switch t {
 	case types.ClientSimpleQuery:
@@ -290,7 +312,7 @@ func (srv *Session) handleSimpleQuery(ctx context.Context, reader *buffer.Reader
 
 func (srv *Session) handleParse(ctx context.Context, reader *buffer.Reader, writer *buffer.Writer) error {
 	if srv.parse == nil || srv.Statements == nil {
-		return ErrorCode(writer, NewErrUnimplementedMessageType(types.ClientParse))
+		return srv.extendedError(writer, NewErrUnimplementedMessageType(types.ClientParse))
 	}
 
 	name, err := reader.GetString()
@@ -324,14 +346,14 @@ func (srv *Session) handleParse(ctx context.Context, reader *buffer.Reader, writ
 
 	statement, err := singleStatement(srv.parse(ctx, query))
 	if err != nil {
-		return ErrorCode(writer, err)
+		return srv.extendedError(writer, err)
 	}
 
 	srv.logger.Debug("incoming extended query", slog.String("query", query), slog.String("name", name), slog.Int("parameters", len(statement.parameters)))
 
 	err = srv.Statements.Set(ctx, name, statement)
 	if err != nil {
-		return ErrorCode(writer, err)
+		return srv.extendedError(writer, err)
 	}
 
 	writer.Start(types.ServerParseComplete)
@@ -359,7 +381,7 @@ func (srv *Session) handleDescribe(ctx context.Context, reader *buffer.Reader, w
 		}
 
 		if statement == nil {
-			return ErrorCode(writer, errors.New("unknown statement"))
+			return srv.extendedError(writer, errors.New("unknown statement"))
 		}
 
 		err = srv.writeParameterDescription(writer, statement.parameters)
@@ -376,13 +398,13 @@ func (srv *Session) handleDescribe(ctx context.Context, reader *buffer.Reader, w
 		}
 
 		if portal == nil {
-			return ErrorCode(writer, errors.New("unknown portal"))
+			return srv.extendedError(writer, errors.New("unknown portal"))
 		}
 
 		return srv.writeColumnDescription(ctx, writer, portal.formats, portal.statement.columns)
 	}
 
-	return ErrorCode(writer, fmt.Errorf("unknown describe command: %s", string(d[0])))
+	return srv.extendedError(writer, fmt.Errorf("unknown describe command: %s", string(d[0])))
 }
 
 // https://www.postgresql.org/docs/15/protocol-message-formats.html
@@ -437,7 +459,7 @@ func (srv *Session) handleBind(ctx context.Context, reader *buffer.Reader, write
 	}
 
 	if stmt == nil {
-		return ErrorCode(writer, NewErrUnkownStatement(statement))
+		return srv.extendedError(writer, NewErrUnkownStatement(statement))
 	}
 
 	err = srv.Portals.Bind(ctx, name, stmt, parameters, formats)
@@ -540,7 +562,7 @@ func (srv *Session) readColumnTypes(reader *buffer.Reader) ([]FormatCode, error)
 
 func (srv *Session) handleExecute(ctx context.Context, reader *buffer.Reader, writer *buffer.Writer) error {
 	if srv.Statements == nil {
-		return ErrorCode(writer, NewErrUnimplementedMessageType(types.ClientExecute))
+		return srv.extendedError(writer, NewErrUnimplementedMessageType(types.ClientExecute))
 	}
 
 	name, err := reader.GetString()
@@ -560,7 +582,7 @@ func (srv *Session) handleExecute(ctx context.Context, reader *buffer.Reader, wr
 	srv.logger.Debug("executing", slog.String("name", name), slog.Uint64("limit", uint64(limit)))
 	err = srv.Portals.Execute(ctx, name, reader, writer)
 	if err != nil {
-		return ErrorCode(writer, err)
+		return srv.extendedError(writer, err)
 	}
 
 	return nil
